@@ -45,6 +45,12 @@ func arrChannel(id uint16) *ref.Channel { return arrChannels[id-1] }
 
 // buildArrangement encodes chunks (each a list of (channel,time)) into an indexed file.
 func buildArrangement(chunks [][]arrMsg, compression string) *arrangement {
+	return buildArrangementIdx(chunks, compression, true)
+}
+
+// buildArrangementIdx: msgIndex=false writes no message index records, so the chunk indexes list no
+// message index offsets (what the Go writer emits under SkipMessageIndexing).
+func buildArrangementIdx(chunks [][]arrMsg, compression string, msgIndex bool) *arrangement {
 	a := &arrangement{nChunks: len(chunks)}
 	var items []ref.Item
 	sch := ref.RSchema(arrSchema)
@@ -73,7 +79,7 @@ func buildArrangement(chunks [][]arrMsg, compression string) *arrangement {
 		a.hasMsg = append(a.hasMsg, len(ch) > 0)
 		items = append(items, ref.Item{Chunk: spec})
 	}
-	lay := ref.Layout{MessageIndex: true, ChunkIndex: true, Statistics: true, RepeatSchemas: true, RepeatChannels: true, SummaryOffsets: true,
+	lay := ref.Layout{MessageIndex: msgIndex, ChunkIndex: true, Statistics: true, RepeatSchemas: true, RepeatChannels: true, SummaryOffsets: true,
 		ChunkCRC: true, DataCRC: true, SummaryCRC: true, GroupOrder: ref.GoGroupOrder}
 	a.bytes = ref.EncodeFile(&ref.Header{Profile: "p", Library: "l"}, items, lay).Bytes
 	return a
@@ -541,13 +547,28 @@ func c04Body(gen func(x *explore.Ctx) [][]arrMsg, full bool) explore.Body {
 				}
 			}
 		}
+		// the same content without message index records (chunk indexes that list no message index
+		// offsets: the reader cannot infer the absence of a topic from them): every topic set x
+		// {no window, every window through the nanosecond options}
+		b := buildArrangementIdx(chunks, "", false)
+		bctx := " (file without message indexes)" + ctxs
+		for _, ts := range c04TopicSets {
+			if v := c04Check(x, b, window{}, c04Exprs[4], ts, bctx); v != nil {
+				return v
+			}
+			for _, w := range windows {
+				if v := c04Check(x, b, w, c04Exprs[0], ts, bctx); v != nil {
+					return v
+				}
+			}
+		}
 		return nil
 	}
 }
 
 // C04: topic and time selection returns exactly the matching messages.
 func C04(r *chk.Run) {
-	r.Rule("encoder-built indexed files: every arrangement of <=2 chunks x <=2 messages over times {0,5,6,2^64-1} on channels 1('a'),2('b'),3('a') plus a message-less channel 4('c'); for every file: every window [s,e) with s<=e over the critical set {0, message times +-1, chunk starts/ends, 2^63-1, 2^63, 2^64-1} plus one-sided and absent windows, expressed through each of 9 option spellings (nanosecond and deprecated int64 options in both argument orders), x topic sets, x {scan, indexed file order, log-time, reverse}; distinct = distinct files; the 'reads' counter gives the number of iterator runs")
+	r.Rule("encoder-built indexed files: every arrangement of <=2 chunks x <=2 messages over times {0,5,6,2^64-1} on channels 1('a'),2('b'),3('a') plus a message-less channel 4('c'); for every file: every window [s,e) with s<=e over the critical set {0, message times +-1, chunk starts/ends, 2^63-1, 2^63, 2^64-1} plus one-sided and absent windows, expressed through each of 9 option spellings (nanosecond and deprecated int64 options in both argument orders), x topic sets, x {scan, indexed file order, log-time, reverse}; the same content also without message index records (chunk indexes listing no message index offsets) under every topic set x every window; distinct = distinct files; the 'reads' counter gives the number of iterator runs")
 	r.Assume("oracle: the model filter topic in S and s <= t < e over the messages the file was built from; an error from a legal expression counts as 'does not mean the same window'")
 	gen := func(maxChunks, maxMsgs int, dom []uint64) func(x *explore.Ctx) [][]arrMsg {
 		return func(x *explore.Ctx) [][]arrMsg { return genArrangement(x, 1, maxChunks, maxMsgs, dom, []uint16{1, 2, 3}) }
